@@ -1,7 +1,9 @@
 package sim
 
 import (
+	"fmt"
 	"math/rand"
+	"time"
 
 	"github.com/orbs-network/lean-helix-go/services/interfaces"
 	"github.com/orbs-network/lean-helix-go/spec/types/go/primitives"
@@ -15,7 +17,10 @@ import (
 
 func scriptedWorld(weights []uint64, byz []string, maxH uint64) *World {
 	cfg := &CaseConfig{Committees: map[uint64][]interfaces.CommitteeMember{}, Byz: map[string]bool{}, Outsiders: map[string]bool{}, MaxH: maxH}
-	ids := []string{"nd00", "nd01", "nd02", "nd03"}
+	var ids []string
+	for i := range weights {
+		ids = append(ids, fmt.Sprintf("nd%02d", i))
+	}
 	cfg.Universe = append(cfg.Universe, ids...)
 	for h := uint64(1); h <= maxH+1; h++ {
 		var cm []interfaces.CommitteeMember
@@ -116,4 +121,156 @@ func (w *World) release() {
 	for _, id := range w.Order {
 		w.Nodes[id].W.VerifObserveRecoveredPanics(nil)
 	}
+}
+
+// HugeViewStats is what ScriptHugeViews observed.
+type HugeViewStats struct {
+	Worlds, Adopted, WrongSenderIgnored, Elected, Destinations int
+	Samples                                                    []string
+}
+
+// ScriptHugeViews (C18, behaviour): one real node receives messages that carry far-away views and are valid in every other
+// respect — the other members' keys all belong to the script, which is outside the f bound of the consensus properties
+// but inside C18's own quantifier ("every view value carried by a received message"). The NEW_VIEW of the member at
+// position view mod n must be adopted (the node moves to that view and prepares), the same NEW_VIEW from any other member
+// must not; votes of the others for a view at the node's own position must elect it; the next timeout's vote must go to the
+// member at position (view+1) mod n (judged by the C18 destination monitor). Handling one message is given `limit`; a
+// handler still running after that is reported as leader computation that does not complete.
+func ScriptHugeViews(seed int64, worlds int, limit time.Duration) ([]Violation, *HugeViewStats, []StepRec, bool) {
+	rng := rand.New(rand.NewSource(seed))
+	st := &HugeViewStats{}
+	var viol []Violation
+	var lastTrace []StepRec
+	centres := []uint64{1 << 20, 1 << 31, 1 << 32, 1 << 33, 1 << 47, 1 << 62, 1 << 63, ^uint64(0) - 40}
+	for i := 0; i < worlds; i++ {
+		n := 4 + rng.Intn(5)
+		weights := make([]uint64, n)
+		for k := range weights {
+			weights[k] = 1
+		}
+		me := rng.Intn(n)
+		var byz []string
+		for k := 0; k < n; k++ {
+			if k != me {
+				byz = append(byz, fmt.Sprintf("nd%02d", k))
+			}
+		}
+		myId := fmt.Sprintf("nd%02d", me)
+		w := scriptedWorld(weights, byz, 1)
+		w.Start()
+		adv := NewAdversary(w, &Profile{Adversary: true})
+		node := w.Nodes[myId]
+		c := w.Comm(1)
+		v := centres[i%len(centres)] + uint64(rng.Intn(40))
+		if i%len(centres) < 2 && rng.Intn(2) == 0 {
+			v -= uint64(rng.Intn(30))
+		}
+		inst := uint64(spi.InstanceId)
+		bad := func(rule, format string, a ...interface{}) {
+			viol = append(viol, Violation{Prop: "C18", Rule: rule, Detail: fmt.Sprintf("n=%d node=%s view=%d: ", n, myId, v) + fmt.Sprintf(format, a...), Step: len(w.Trace)})
+		}
+		deliver := func(from string, raw *interfaces.ConsensusRawMessage) bool {
+			done := make(chan struct{})
+			f := w.Inject(from, myId, raw)
+			w.take(func(x *Flight) bool { return x == f })
+			go func() { w.Deliver(f); close(done) }()
+			select {
+			case <-done:
+				return true
+			case <-time.After(limit):
+				bad("handling-a-received-view-does-not-complete", "the handler of a %s from %s carrying that view is still running after %v (its normal cost is microseconds): leader computation for a received view value does not complete", f.Msg.Env, from, limit)
+				return false
+			}
+		}
+		st.Worlds++
+		leader := c.Leader(v)
+		E := &spi.Blk{H: 1, Body: fmt.Sprintf("huge-%d", i)}
+		var votes []*ref.Vote
+		for _, b := range byz {
+			votes = append(votes, adv.mkVote(b, inst, 1, v, nil))
+		}
+		if leader == myId {
+			// votes of all the others for a view at the node's own position: it must collect them and announce the view
+			for k, vt := range votes {
+				if !deliver(byz[k], ref.RawVoteMsg(vt, nil)) {
+					return viol, st, w.Trace, false
+				}
+			}
+			announced := false
+			for _, f := range w.Seen {
+				if f.Honest && f.From == myId && f.Msg != nil && f.Msg.Env == ref.EnvNV && f.Msg.V == v {
+					announced = true
+				}
+			}
+			if !announced || uint64(node.St.View()) != v {
+				bad("member-at-view-mod-n-not-elected-by-a-quorum-of-votes", "every other member voted for that view, whose position %d is the node's own; the node is in view %d and announced=%v", v%uint64(n), uint64(node.St.View()), announced)
+			} else {
+				st.Elected++
+			}
+		} else {
+			// the same NEW_VIEW from a member at another position first: must be ignored
+			wrong := byz[rng.Intn(len(byz))]
+			if wrong != leader {
+				if !deliver(wrong, adv.mkNV(wrong, 1, v, votes, spi.HashOf(E), E, v)) {
+					return viol, st, w.Trace, false
+				}
+				if uint64(node.St.View()) == v {
+					bad("new-view-of-a-member-at-another-position-adopted", "NEW_VIEW sent and signed by %s (position %d) was adopted; the leader of that view is %s (position %d)", wrong, indexOf(c, wrong), leader, v%uint64(n))
+				} else {
+					st.WrongSenderIgnored++
+				}
+			}
+			if !deliver(leader, adv.mkNV(leader, 1, v, votes, spi.HashOf(E), E, v)) {
+				return viol, st, w.Trace, false
+			}
+			prepared := false
+			for _, f := range w.Seen {
+				if f.Honest && f.From == myId && f.Msg != nil && f.Msg.Env == ref.EnvP && f.Msg.V == v && string(f.Msg.Hash) == string(spi.HashOf(E)) {
+					prepared = true
+				}
+			}
+			if uint64(node.St.View()) != v || !prepared {
+				bad("new-view-of-the-member-at-view-mod-n-not-adopted", "a NEW_VIEW with the votes of all %d other members, sent by %s = committee[%d], left the node in view %d (PREPARE sent=%v)", len(votes), leader, v%uint64(n), uint64(node.St.View()), prepared)
+			} else {
+				st.Adopted++
+			}
+		}
+		// the next timeout: the vote goes to the member at position (view+1) mod n (judged by the destination monitor)
+		if uint64(node.St.View()) == v && v != ^uint64(0) {
+			before := w.Mon.Stats["C18 view change destinations judged"]
+			done := make(chan struct{})
+			go func() { w.Timeout(node); close(done) }()
+			select {
+			case <-done:
+			case <-time.After(limit):
+				bad("handling-a-received-view-does-not-complete", "the election timeout of that view is still being handled after %v", limit)
+				return viol, st, w.Trace, false
+			}
+			st.Destinations += w.Mon.Stats["C18 view change destinations judged"] - before
+		}
+		for _, x := range w.Mon.Viol {
+			if x.Prop == "C18" {
+				x.Detail = fmt.Sprintf("n=%d node=%s view=%d: %s", n, myId, v, x.Detail)
+				viol = append(viol, x)
+			}
+		}
+		if len(st.Samples) < 6 && i%3 == 0 {
+			st.Samples = append(st.Samples, fmt.Sprintf("n=%d node=%s view=%d leader=%s -> node view %d", n, myId, v, leader, uint64(node.St.View())))
+		}
+		lastTrace = w.Trace
+		w.release()
+		if len(viol) > 0 {
+			return viol, st, lastTrace, true
+		}
+	}
+	return viol, st, lastTrace, true
+}
+
+func indexOf(c *ref.Committee, id string) int {
+	for i := 0; i < c.N(); i++ {
+		if c.Leader(uint64(i)) == id {
+			return i
+		}
+	}
+	return -1
 }
